@@ -38,8 +38,8 @@ reg("C04", "rules_arith", "check_C04", "proof",
     COMMON_ASSUME + ["JMP 2017 Alg. 9 (2u^2), Alg. 12 (5u^2) bounds"])
 reg("C05", "rules_arith", "check_C05", "other",
     "instances = DWDivFP3 bodies, the three long-division bodies, recip, every spelling; distinct by impl",
-    "R9 (S): TwoFloat/f64 conforms to Alg. 15 => 3u^2. R10 (X): the three copies of the long division have the qd accurate_div skeleton q1,q2,q3 -> renorm3 and agree. R11 (S): recip is 1.0/self. R9x (S, rewriting): a zero numerator gives zero, dividing by +-1 is exact, a / a == 1 exactly. The 16*2^-106 bound of the long division itself is NOT decided (no theorem, no static error analyser available).",
-    COMMON_ASSUME + ["JMP 2017 Alg. 15 bound; the long-division accuracy is not decided"])
+    "R9 (S): TwoFloat/f64 conforms to Alg. 15 => 3u^2. R10 (X): the three copies of the long division have the qd accurate_div skeleton q1,q2,q3 -> renorm3 and agree. R11 (S): recip is 1.0/self. R9x (S, rewriting): a zero numerator gives zero, dividing by +-1 is exact, a / a == 1 exactly. R10e (N, exact rationals, derivation DESIGN B.5 over the form R10 established): the long division is within 11 u^2 <= 16 * 2^-106 of the exact quotient (renorm3 returns q1 + q2 exactly; the third digit is absorbed).",
+    COMMON_ASSUME + ["JMP 2017 Alg. 15 bound; R10e lemmas: f64 division correctly rounded, Alg. 9 / Alg. 6 / Alg. 4 bounds for the conforming operators (C03, C04), no under/overflow for high words in [2^-450, 2^450]"])
 reg("C19", "rules_arith", "check_C19", "other",
     "instances = the three rem bodies and every spelling, %=, div_euclid and rem_euclid decision trees",
     "R51 (S/X): every form of % is a - trunc(a/b)*b at operator level and all spellings agree bit-for-bit. R52 (N): div_euclid / rem_euclid decision trees equal the floor/ceil adjustment table; R52d (X): a num_traits method with one of these names returns the inherent one. Numeric tolerances are not decided.",
@@ -81,7 +81,7 @@ reg("C08", "rules_base", "check_C08", "other",
 reg("C13", "rules_funcs", "check_C13", "other",
     "instances = sqrt / hypot / cbrt reference forms, exact-zero division analysis, powi special-case table and call structure, panic sites reachable from powi and the Pow impls",
     "R31 (S*): sqrt's guard table (negative -> NaN, 0 -> 0) and Karp-Markstein correction, hypot = sqrt(x^2+y^2), cbrt = zero guard + k>=1 Newton steps, compared semantically at operator level. R32 (N): with a zero argument no division by a definitely-zero value is reached. R26 (S): powi dispatches 0/1/-1 then square-and-multiply with recip for negative n and never takes i32::abs. R31e / R26e (N, exact rationals, hand derivations DESIGN B.3/B.4 over the forms R31/R26 established): sqrt <= 32u^2, hypot <= 48u^2, cbrt <= 16u^2, powi <= (6|n|+16)u^2 for 2 <= |n| <= 2^31.",
-    COMMON_ASSUME + ["R31e/R26e lemmas: libm::sqrt and the f64 operations correctly rounded, libm::cbrt within 2^-30, operator bounds of JMP 2017 for conforming code (C02-C04), long division within 16u^2 (statement of C05), no under/overflow on the stated ranges"])
+    COMMON_ASSUME + ["R31e/R26e lemmas: libm::sqrt and the f64 operations correctly rounded, libm::cbrt within 2^-30, operator bounds of JMP 2017 for conforming code (C02-C04), long division within 16u^2 (C05, rule R10e), no under/overflow on the stated ranges"])
 reg("C14", "rules_funcs", "check_C14", "other",
     "instances = 161 table entries in 4 families (R33), 3 series truncation bounds (R34), range switches and reference forms of exp / exp_half / exp_m1 / exp2 / powf (R35)",
     "R33 (S, data): every entry of the 1/i!, exp(n/128)-1, exp(n/2), exp(16n) tables is the correctly rounded double-double of its family value (family and offset inferred from the data, then enforced on every entry), and the index maps agree with the offsets. R34 (N): Taylor truncation remainders (exact rationals) stay below half the property's floors. R35 (N/S*): range-switch literals lie in the windows the property allows; exp, exp_half, exp_m1, exp2, powf equal their reference forms semantically. Accuracy floors are not decided.",
@@ -95,12 +95,12 @@ reg("C16", "rules_funcs", "check_C16", "other",
     "instances = sin / cos / sin_cos / tan dispatch tables incl. the inlined reduction, three kernel approximation bounds",
     "R41/R42 (N/X): sin, cos, tan equal reference forms consisting of the validity guard, the reduction q = round(x/dd(pi/2)), r = x - q*dd(pi/2) with threshold dd(pi/4) and the quadrant tables [S,C,-S,-C] / [C,-S,-C,S] / [T,-1/T,T,-1/T]; sin_cos arm k is (sin.arm k, cos.arm k) term-for-term (the bit-for-bit clause). R43 (N): the sin/cos/tan polynomial kernels approximate their functions on |r| <= pi/4 within half the property's floors (exact rational sup-norm over isolated critical points). R43e (N, exact rationals): end-to-end bounds - Horner rounding error by the perturbation expansion over the reference form (each operator within the relative bound of the algorithm it conforms to), argument reduction with the crate's own FRAC_PI_2 for |x| <= 2^20, reduced argument inside the kernel interval: sin, cos absolute <= 2^-66, sin relative <= 2^-64 on [2^-400, pi/4], tan's stated bound away from the poles. R42z (N): the reciprocal arms of tan must test the divisor for zero (they do not: known finding K2, tan(FRAC_PI_2) = NaN).",
     COMMON_ASSUME + ["kernel tables identified by role (leading coefficient -1/6, 1/24, 1/3)",
-                     "R43e lemmas: operator error bounds of JMP 2017 Alg. 4/6/9/12 for conforming code (C03, C04), the quotient feeding round() within 16u^2 (statement of C05; < 2^-61 suffices), round exact (C08); no underflow (|x| >= 2^-400)"])
+                     "R43e lemmas: operator error bounds of JMP 2017 Alg. 4/6/9/12 for conforming code (C03, C04), the quotient feeding round() within 16u^2 (C05, rule R10e; < 2^-61 suffices), round exact (C08); no underflow (|x| >= 2^-400)"])
 
 reg("C17", "rules_funcs", "check_C17", "other",
     "instances = atan reduction table and range check, asin / acos forms, atan2 axis/quadrant table, two kernel approximation bounds",
     "R44 (N): atan's five-interval reduction has thresholds 2,3,5,10 on k = 4|x| + 1/4, arm constants equal to dd(atan 1/2), dd(pi/4), dd(atan 3/2), dd(pi/2), the same c in numerator and denominator of each transform, sign restoration, and the transforms map into the kernel interval (exact rationals). R45 (S*): asin / acos reference forms. R46 (N): atan2's axis and quadrant table equals the stated convention. R43' (N): asin and atan kernels approximate within half the floors. R43e (N, exact rationals): end-to-end bounds from the kernel bounds, the Horner rounding error (perturbation expansion over the reference form) and the arm transforms: atan relative <= 2^-70 on [2^-400, 2^60], atan2 <= 2^-69 off the axes, asin <= 2^-45 absolute / 2^-43 relative, acos <= 2^-45 absolute.",
-    COMMON_ASSUME + ["R43e lemmas: operator error bounds of JMP 2017 Alg. 4/6/9/12 for conforming code (C03, C04), division within 16u^2 (statement of C05), sqrt within 32u^2 (statement of C13), no underflow (|x| >= 2^-400)"])
+    COMMON_ASSUME + ["R43e lemmas: operator error bounds of JMP 2017 Alg. 4/6/9/12 for conforming code (C03, C04), division within 16u^2 (C05, rule R10e), sqrt within 32u^2 (statement of C13), no underflow (|x| >= 2^-400)"])
 reg("C18", "rules_funcs", "check_C18", "other",
     "instances = six definitions, conjugate-sum lint instances, odd-symmetry proofs",
     "R49 (S): cosh/sinh/tanh/acosh/asinh/atanh are the stated combinations of exp, ln, sqrt. R47 (N, repository-specific numerical lint): t + sqrt(t*t + c) is evaluated only with t >= 0 (abs / sign split) wherever the accurate domain contains negative arguments. R48 (S, algebra Z): sinh and tanh normalise to odd functions, so accuracy for negative arguments is accuracy for positive ones. Accuracy bounds and exact points are not decided.",
